@@ -20,7 +20,7 @@ RULE = ('cases = corpus + random, three kinds: (range) get_first_range(header, m
         'ombott.static_file on a real temporary file of length 0..40 (one case: streaming-buffer size + 5) with chosen '
         'mtime, GET/HEAD, Range headers from the RFC 7233 grammar (a-b, a-, -n, lists, leading zeros, values around the '
         'length) and near misses (-0, reversed, 1-2-3, xbytes=, items=, spaces, +1, 1_0, unicode spaces, 4300/4301 '
-        'digits, junk), If-Modified-Since dates before/equal/after the mtime in three formats, with parameters, empty '
+        'digits, junk), If-Modified-Since dates before/equal/after the mtime in three formats (mtimes include 0, 1, 2: the epoch date parses to 0), with parameters, empty '
         'and garbage.  thorough adds every first range spec over numbers {"",0,1,L-1,L,L+1} x lengths 0..6 and every '
         '(length, offset, n, buffer) <= 7 for the iterator (exhaustive).  non-trivial = a Range header that reaches the '
         'numeric cases, an iterator run with >= 2 chunks, or a conditional request with a parsed date; distinct by case content')
@@ -122,6 +122,11 @@ def corpus():
         st(d10, ims='rfc850', delta=0), st(d10, ims='asctime', delta=0), st(d10, ims='rfc1123+param', delta=3600),
         st(d10, ims='rfc1123+space', delta=0), st(d10, ims='rfc1123', delta=0, rng='bytes=0-3'),
         st(d10, ims='rfc1123', delta=-5, rng='bytes=0-3'), st(d10, ims='rfc1123', delta=0, method='HEAD'),
+        # the epoch: parse_date gives 0.0, which is falsy but is a date (seeded change C17/3)
+        st(d10, mtime=0, ims='rfc1123', delta=0), st(d10, mtime=0, ims='asctime', delta=0), st(d10, mtime=0, ims='rfc850', delta=0),
+        st(d10, mtime=0, ims='rfc1123', delta=1), st(d10, mtime=1, ims='rfc1123', delta=-1), st(d10, mtime=1, ims='rfc1123', delta=0),
+        st(d10, mtime=0, ims='rfc1123', delta=0, rng='bytes=0-3'), st(d10, mtime=0, ims='rfc1123', delta=0, method='HEAD'),
+        st(d10, mtime=0, frac=500000000, ims='rfc1123', delta=0), st(d10, mtime=2, ims='rfc1123', delta=-2),
         st(d10, ims=''),                               # F20: an empty If-Modified-Since header crashed (TypeError)
         st(d10, ims='', rng='bytes=0-3'), st(d10, ims='garbage'), st(d10, ims=' ; x'), st(d10, ims=';'), st(d10, ims=' '),
         st(d10, ims='Thu, 01 Jan 2099 00:00:00 GMT'), st(d10, ims='Thu, 32 Jan 2099 00:00:00 GMT'),
@@ -225,7 +230,9 @@ def gen(rng, n):
                 ims = rng.choice(['', ' ', ';', 'garbage', 'Thu, 01 Jan 2099 00:00:00 GMT', 'Thu, 01 Jan 1980 00:00:00 GMT',
                                   'Thu, 01 Jan 2099 00:00:00 +0100', '01 Jan 2099', 'Thu, 01 Jan 2099 25:00:00 GMT', '1700000000',
                                   'Thu, 01 Jan 2099 00:00:00 GMT; x', '; Thu, 01 Jan 2099 00:00:00 GMT', '\xa0Thu, 01 Jan 2099 00:00:00 GMT\x85'])
-            mtime = rng.choice([1700000000, 1, 86400 * 365, 1700000000 + rng.randrange(10 ** 6)])
+            mtime = rng.choice([1700000000, 0, 0, 1, 2, 60, 86400 * 365, 1700000000 + rng.randrange(10 ** 6)])
+            if delta is not None and mtime < 100:
+                delta = rng.choice([0, 0, 1, -1, -mtime, 60, 86400])   # dates at and around the epoch
             frac = rng.choice([0, 0, 1, 500000000, 999999999])
             yield st(file, mtime, frac, method, rg, ims, delta)
 
